@@ -132,6 +132,10 @@ def main():
     c.exhaustive = True
     c.trusted = ["TLC", "harness/pv_store.hpp probe encoding", "python assembly of chi - chi0 from the library's own chi and G"]
     c.assumptions = ["lookups before the first compute() are outside the specification (a Fill comes first)"]
+    # call histories of the documented workflow (spec/Workflow.tla): repeated prepare()/compute() are no-ops, a call changes the data of
+    # its own object only, and whatever the history, the finished object holds the data of the canonical linear order
+    import workflow
+    workflow.attach(c, {"V"}, 'vertex')
     c.finish()
 
 
